@@ -7,7 +7,7 @@ import json
 import random
 from harness import fml, shrink
 from harness.common import (Model, Report, run_impl, obligations, ensure_build, load_known,
-                            broken_obligation, VERIF)
+                            broken_obligation, generator_failures, VERIF)
 
 
 class Check(object):
@@ -136,10 +136,14 @@ class Check(object):
     def main(self, tier, seed, replay=None):
         rep = Report(self.PID, tier, seed)
         ok, log, _ = ensure_build()
+        # a failure somewhere in the build concerns this property only if its own theorem file (with everything it imports) no longer
+        # compiles, or a generator it rests on refused the source; the correspondence below runs whenever a model driver exists
         obl = obligations(self.PID)
-        if not ok:
+        for g, txt in generator_failures(self.PID):
             obl['ok'] = False
-            obl['log'] = log[-2500:] + obl['log']
+            obl['log'] = 'generator %s failed on the current source:\n%s\n' % (g, txt) + obl['log']
+        if not ok and not obl['ok']:
+            obl['log'] = log[-1500:] + obl['log']
         rng = random.Random(seed)
         model = Model()
         if replay:
@@ -151,7 +155,7 @@ class Check(object):
         ncs = len(cs)
         cs = [c for c in cs if self.cheap(c)]
         self.skipped_costly = ncs - len(cs)
-        verdicts = self.evaluate(model, cs) if (ok or replay) and os.path.exists(os.path.join(VERIF, 'build', 'model_driver')) else []
+        verdicts = self.evaluate(model, cs) if os.path.exists(os.path.join(VERIF, 'build', 'model_driver')) else []
         stats, hist, distinct, failing = {}, {}, set(), []
         for c, (v, d) in zip(cs, verdicts):
             stats[v] = stats.get(v, 0) + 1
